@@ -347,6 +347,102 @@ def members():
 
 
 # ------------------------------------------------------------------ exponential-cone probability sets (C03 only)
+def soc_members(tier='thorough'):
+    """Members whose supports / expectation sets carry second-order-cone constraints (balls, shifted balls, second-moment
+    liftings, norm-bounded means): decided in moment form (rsv.dromoments), soundness only (C03)."""
+    M = {}
+
+    def reg(f):
+        M[f.__name__] = f
+        return f
+
+    @reg
+    def soc_ball_supports(a):
+        """Ball and shifted-ball supports per scenario, box on the mean, lower bounds on the probabilities."""
+        p = a.scen(2)
+        x = a.dvar(2)
+        z = a.rvar(2)
+        F = a.ambiguity()
+        a.supp(F, [0], a.le(a.norm(z, 2), 1.5))
+        a.supp(F, [1], a.le(a.norm(z - A([1.0, 0.5]), 2), 1.0), a.ge(z[0], 0.25))
+        a.prob(F, a.ge(p, 0.25))
+        a.minsup(a.E(a.maxof(a.sum(x * z), 1.0 - x[0], 0.5 * x[1] - z[0])), F)
+        a.st(a.le(a.E(x[0] * z[1] + x[1]), 1.5))
+        a.st(a.ge(x, -2.0))
+        a.st(a.le(x, 2.0))
+
+    @reg
+    def soc_ball_supports_mean(a):
+        """As above with a box on the overall mean (thorough tier: level-1 linearisation does not decide the piecewise
+        objective of this member; it is a stretch obligation)."""
+        p = a.scen(2)
+        x = a.dvar(2)
+        z = a.rvar(2)
+        F = a.ambiguity()
+        a.supp(F, [0], a.le(a.norm(z, 2), 1.5))
+        a.supp(F, [1], a.le(a.norm(z - A([1.0, 0.5]), 2), 1.0))
+        a.expt(F, None, a.le(a.Ez(z), 0.75), a.ge(a.Ez(z), -0.25))
+        a.minsup(a.E(a.maxof(a.sum(x * z), 1.0 - x[0])), F)
+        a.st(a.le(a.E(x[0] * z[1] + x[1]), 1.5))
+        a.st(a.ge(x, -2.0))
+        a.st(a.le(x, 2.0))
+
+    @reg
+    def soc_mean_variance(a):
+        """Second-moment information through the lifting square(z) <= u, E(u) <= sigma^2 + mu^2."""
+        p = a.scen(1)
+        x = a.dvar(())
+        z = a.rvar(())
+        u = a.rvar(())
+        F = a.ambiguity()
+        a.supp(F, None, a.le(a.square(z), u), a.le(u, 9.0))
+        a.expt(F, None, a.eq(a.Ez(z), 0.5), a.le(a.Ez(u), 1.25))
+        a.minsup(a.E(a.maxof(1.5 * (x - z), 2.0 * (z - x))), F)
+        a.st(a.ge(x, -3.0))
+        a.st(a.le(x, 3.0))
+
+    @reg
+    def soc_mean_ball(a):
+        """Box supports, the mean of an event constrained to a ball; event-wise decision."""
+        p = a.scen(2)
+        x = a.dvar(())
+        y = a.dvar(())
+        z = a.rvar(2)
+        a.evt(y, [1])
+        F = a.ambiguity()
+        a.supp(F, [0], a.ge(z, -1.0), a.le(z, 1.0))
+        a.supp(F, [1], a.ge(z, -0.5), a.le(z, 2.0))
+        a.expt(F, None, a.le(a.norm(a.Ez(z), 2), 0.5))
+        a.prob(F, a.eq(p, A([0.25, 0.75])))
+        a.minsup(a.E(a.maxof(x * z[0] + y, 2.0 * y - x + 0.5 * z[1], -1.0 * y)), F)
+        a.st(a.ge(x, -2.0))
+        a.st(a.le(x, 2.0))
+        a.st(a.ge(y, -3.0))
+        a.st(a.le(y, 3.0))
+
+    @reg
+    def soc_recourse(a):
+        """Affinely adaptive recourse against a ball support: a plain robust row and an expected cost."""
+        p = a.scen(2)
+        x = a.dvar(())
+        y = a.dvar(())
+        z = a.rvar(2)
+        a.aff(y, z)
+        F = a.ambiguity()
+        a.supp(F, [0], a.le(a.norm(z, 2), 1.0))
+        a.supp(F, [1], a.le(a.norm(z, 2), 2.0), a.ge(z[1], -0.5))
+        a.expt(F, None, a.eq(a.Ez(z), A([0.25, 0.0])))
+        a.prob(F, a.ge(p, A([0.5, 0.125])))
+        a.minsup(a.E(x + 0.5 * y), F)
+        a.st(a.ge(y, z[0] + z[1] - x))
+        a.st(a.ge(y, 0.0))
+        a.st(a.ge(x, 0.0))
+        a.st(a.le(x, 5.0))
+    if tier == 'quick':
+        M.pop('soc_ball_supports_mean')
+    return M
+
+
 def kl_members():
     M = {}
 
@@ -628,6 +724,8 @@ def lookup(name):
     K = kl_members()
     if name in K:
         return K[name]
+    if name.startswith('soc_'):
+        return soc_members()[name]
     if name.startswith('chainE'):
         import re
         mm = re.match(r'chainE(\d+)(max|min)$', name)
